@@ -218,3 +218,154 @@ def pyval(e, regs, stack, layout, floor=True):
     return {"+": a + b, "-": a - b, "*": a * b, "&": a & b, "|": a | b,
             "^": a ^ b, "<<": a << b if 0 <= b < 256 else 0,
             ">>": a >> b if 0 <= b < 256 else 0}[e.op]
+
+
+# ------------------------------------------------------------- conditions
+
+class Cmp:
+    OPS = {"<": lambda a, b: a < b, "<=": lambda a, b: a <= b, ">": lambda a, b: a > b,
+           ">=": lambda a, b: a >= b, "==": lambda a, b: a == b, "!=": lambda a, b: a != b}
+
+    def __init__(self, op, l, r):
+        self.op, self.l, self.r = op, l, r
+
+    def label(self):
+        return f"{self.l.label()} {self.op} {self.r.label()}"
+
+    def dsl(self, p):
+        return self.OPS[self.op](self.l.dsl(p), self.r.dsl(p))
+
+    def atoms(self):
+        return self.l.atoms() + self.r.atoms()
+
+    def spec(self, st):
+        """(truth, FITS): both compared values fit the narrowest width
+        involved (signed range if either side is signed)"""
+        a, b = math(self.l, st), math(self.r, st)
+        W = 32 if min(min_size(self.l), min_size(self.r)) <= 4 else 64
+        sg = self.l.signed or self.r.signed
+        return self.OPS[self.op](a, b), z3.And(fits(a, W, sg), fits(b, W, sg))
+
+    def py(self, regs, stack, layout):
+        return self.OPS[self.op](pyval(self.l, regs, stack, layout), pyval(self.r, regs, stack, layout))
+
+
+class Truth:
+    """an expression used as a condition (true iff non-zero); `e & mask`
+    compiles to the special test instruction"""
+
+    def __init__(self, e):
+        self.e = e
+
+    def label(self):
+        return self.e.label()
+
+    def dsl(self, p):
+        return self.e.dsl(p)
+
+    def atoms(self):
+        return self.e.atoms()
+
+    def spec(self, st):
+        v = ring(self.e, st, 64)
+        W = 32 if min_size(self.e) <= 4 else 64
+        cond = z3.BoolVal(True)
+        for a in self.e.atoms():
+            cond = z3.And(cond, fits(st.atom(a, MW), W, a.signed))
+        return v != 0, cond
+
+    def py(self, regs, stack, layout):
+        return pyval(self.e, regs, stack, layout) != 0
+
+
+class Bits:
+    """a bit field LocalVar((pos, nbits)); `negated` is ~field (single bit)"""
+
+    def __init__(self, pos, nbits, name, negated=False, equals=None):
+        self.pos, self.nbits, self.name = pos, nbits, name
+        self.negated, self.equals = negated, equals
+        self.fmt = (pos, nbits)
+
+    def label(self):
+        s = f"{self.name}[{self.pos}:{self.nbits}]"
+        if self.equals is not None:
+            return f"{s} == {self.equals}"
+        return ("~" if self.negated else "") + s
+
+    def dsl(self, p):
+        f = getattr(p, self.name)
+        if self.equals is not None:
+            return f == self.equals
+        return ~f if self.negated else f
+
+    def atoms(self):
+        return [self]
+
+    def field(self, st):
+        byte = A.sel(st.stack, A.stack_off(st.layout[self.name]))
+        return z3.Extract(self.pos + self.nbits - 1, self.pos, byte)
+
+    def spec(self, st):
+        f = self.field(st)
+        if self.equals is not None:
+            return f == self.equals, z3.BoolVal(True)
+        t = f != 0
+        return (z3.Not(t) if self.negated else t), z3.BoolVal(True)
+
+    def py(self, regs, stack, layout):
+        byte = stack[A.stack_off(layout[self.name])]
+        f = (byte >> self.pos) & ((1 << self.nbits) - 1)
+        if self.equals is not None:
+            return f == self.equals
+        return (f == 0) if self.negated else (f != 0)
+
+
+def as_condition(x):
+    from ebpfcat.ebpf import Expression
+    return (x != 0) if isinstance(x, Expression) else x
+
+
+class Not:
+    def __init__(self, c):
+        self.c = c
+
+    def label(self):
+        return f"~({self.c.label()})"
+
+    def dsl(self, p):
+        return ~as_condition(self.c.dsl(p))
+
+    def atoms(self):
+        return self.c.atoms()
+
+    def spec(self, st):
+        t, f = self.c.spec(st)
+        return z3.Not(t), f
+
+    def py(self, *a):
+        return not self.c.py(*a)
+
+
+class Junction:
+    def __init__(self, is_and, l, r):
+        self.is_and, self.l, self.r = is_and, l, r
+
+    def label(self):
+        return f"({self.l.label()}) {'&' if self.is_and else '|'} ({self.r.label()})"
+
+    def dsl(self, p):
+        # `&` and `|` of plain expressions are bitwise operators of the DSL;
+        # conditions are combined as comparisons
+        a, b = as_condition(self.l.dsl(p)), as_condition(self.r.dsl(p))
+        return a & b if self.is_and else a | b
+
+    def atoms(self):
+        return self.l.atoms() + self.r.atoms()
+
+    def spec(self, st):
+        (ta, fa), (tb, fb) = self.l.spec(st), self.r.spec(st)
+        return (z3.And(ta, tb) if self.is_and else z3.Or(ta, tb)), z3.And(fa, fb)
+
+    def py(self, *a):
+        x, y = self.l.py(*a), self.r.py(*a)
+        return (x and y) if self.is_and else (x or y)
